@@ -13,7 +13,7 @@ fn make_job(path: std::path::PathBuf, opts: fcx::Opts, ir_root: Option<std::path
     let n = Arc::new(AtomicUsize::new(0));
     Arc::new(move || {
         let ir = ir_root.as_ref().map(|r| {
-            let d = r.join(format!("ir{}", n.fetch_add(1, Ordering::Relaxed)));
+            let d = r.join(format!("ir{}-{}", std::process::id(), n.fetch_add(1, Ordering::Relaxed))); // worker processes share the root
             let _ = std::fs::create_dir_all(&d);
             d
         });
@@ -108,7 +108,13 @@ fn main() {
         }
         Tier::Thorough => {
             for src in 0..fam.len() {
-                let dmax = if fam[src].name.starts_with('K') { 1 } else { 2 };
+                let dmax = match fam[src].name {
+                    "K1" => 1,
+                    // the biggest sources: the default schedules of both base orders (every access pair is judged by the
+                    // happens-before monitor there)
+                    "K2" | "N1" => 0,
+                    _ => 2,
+                };
                 // with at most one demotion no more than two tasks are ever in flight (the strict-priority base
                 // scheduler runs a task to its end before the next starts), so a pool of 2 only differs from d = 2 on
                 for k in if dmax >= 2 { vec![big, 2] } else { vec![big] } {
@@ -136,7 +142,8 @@ fn main() {
     let mut model_sources: Vec<usize> = plans.iter().map(|p| p.src).collect();
     model_sources.sort();
     model_sources.dedup();
-    model_sources.retain(|s| !fam[*s].name.starts_with('K'));
+    // the model is explored for the J sources (<= 4 glyphs): with the ~20 glyphs of K1 / K2 / N1 the dynamic set is too big
+    model_sources.retain(|s| fam[*s].name.starts_with('J'));
     let mut model_reports = vec![];
     let mut pending_model_violations: Vec<(&str, String, String, serde_json::Value)> = vec![];
     // sources on which some explored execution showed a handle_success effect that differs from the reference run's
